@@ -1,3 +1,4 @@
+import Sparrow.Proofs.BrdfGlueEquiv
 import Sparrow.Proofs.BrdfLemmas
 /-
   C13 — Constructed BRDFs conserve energy, are non-negative and reciprocal.
@@ -61,3 +62,20 @@ example : GaussSampling 2 (fun _ => 1 / 2) (fun _ => 1) (fun k => 1 - k) where
   mir_invol := fun k hk => by omega
 
 end Sparrow.Props.C13
+
+namespace Sparrow.Props.C13.BrdfGlue
+open Sparrow Sparrow.Generated.BrdfGlue
+
+
+theorem createFromScattering_eq (n : Nat) (cosT w s a : Nat → ℝ) (mir : Nat → Nat) (i o b : Nat) :
+    createFromScattering n n cosT w s a mir i o b = brdfScattering n cosT w mir (s b) (a b) i o :=
+  Sparrow.createFromScattering_eq n cosT w s a mir i o b
+
+
+theorem createFromDirectionalScattering_eq (n : Nat) (cosT w : Nat → ℝ) (sd : Nat → Nat → Nat → ℝ) (a : Nat → ℝ)
+    (i o b : Nat) :
+    createFromDirectionalScattering n n cosT w sd a i o b =
+      brdfDirectional n cosT w (fun i o => sd i o b) (a b) i o :=
+  Sparrow.createFromDirectionalScattering_eq n cosT w sd a i o b
+
+end Sparrow.Props.C13.BrdfGlue
